@@ -39,6 +39,11 @@ def run(R, ctx):
     R.rule('R05.5', 'MUST-REACH(specification store) on every non-error path of each reconfiguration entry')
 
     handle = {m: ctx.body(rf'^logger_handle::LoggerHandle::{m}$') for m in API}
+    # `filtering follows exactly the specification that is then active`: log() decides from the specification it reads under the lock at that call
+    # - level AND text filter - and from nothing remembered from an earlier specification (routing table shared with R13.1 / R02.3)
+    R.rule('R05.6', 'log() decides from the specification read at the call only: no condition outside the documented routing (shared with R02.3)')
+    import c13 as _c13
+    _c13.routing(Relabel(R, {'R13.1': 'R05.6'}), ctx)
 
     # R05.1 -----------------------------------------------------------------------------------
     # decision rows of every handle function that parses a specification string: on a row where parse() returned Err
